@@ -416,6 +416,9 @@ def _case(arg) -> Dict[str, Any]:
     frac = (seed % 4 == 1)
     kw = dict(n_threads=1 + seed % 2, n_streams=1 + seed % 2, steps=seed % 3 if mode != "load" else 0, fractional=frac, base=[0, 1_000_000, 1_700_000_000_000_000][seed % 3])
     per_rank = gen.gen_trace_set(seed, n_ranks=nr, **kw)
+    if seed % 6 == 4 and not frac:
+        per_rank = gen.wide_narrow_set(seed, **kw)  # a 200-name rank next to a small all-duration rank: the small rank's symbols get trace-wide ids beyond 127
+        nr = 2
     if seed % 7 == 3:
         # a host-only rank none of whose events carries an `args` object (no launches, no metadata entries): stream / correlation must decode to their defaults
         last = max(per_rank)
